@@ -67,6 +67,7 @@ class Sym:
     twins: list = dataclasses.field(default_factory=list)
     note: str = ""
     replay: str | None = None   # "module:function" taking the counterexample argument string
+    min_conditions: int = 1     # a module reporting fewer non-twin verdicts is a harness error
 
 
 @dataclasses.dataclass
@@ -333,7 +334,7 @@ def run_sym(u: Sym, workdir):
     fn_at = {}
     cur = None
     for i, ln in enumerate(u.source.splitlines(), 1):
-        m = re.match(r"def (\w+)\(", ln)
+        m = re.match(r"\s*def (\w+)\(", ln)
         if m:
             cur = m.group(1)
             fn_at[i] = cur
@@ -368,6 +369,9 @@ def run_sym(u: Sym, workdir):
         elif c["verdict"] == "inconclusive" and status == "confirmed":
             status = "inconclusive"
             res.setdefault("detail", []).append(f"{f}: {c['msg']}")
+    if len([f for f in declared if f not in u.twins]) < u.min_conditions:
+        status = "harness_error"
+        res.setdefault("detail", []).append("fewer conditions than declared")
     res["status"] = status
     res["n_conditions"] = len([f for f in declared if f not in u.twins])
     res["n_twins"] = len(u.twins)
